@@ -9,8 +9,9 @@ DECIDES = ('for insert_knot x {curve, surface u/v, volume u/v/w}: every per-dire
            'with s_k = find_multiplicity(param[k], knotvector_k), exact strict inequality (GD2); the net is replaced before the knot vector; '
            'the object wrappers fill the (u, v, w) parameter/count lists from the matching keywords, mutate nothing before delegating and catch '
            'only the rejection (WR1). the input rows of A5.1 are never mutated and cells of its in-place-updated work array leave it only as deep copies  (PU1, AL1); [SKEL, bounded] A5.1 assigns every one of the n + num output cells a defined point of the input shape (rows and volume slabs) and the new knot vector every slot, for degree 1..5, every admissible span / multiplicity / count. [ORDER TYPES, exact per type] knot_insertion_kv returns the sorted merge of the old knot vector and num copies of the parameter (KI1). the [0, 1] parameter rejection is only evaluated for shapes with normalised knot vectors (RG1). the unweighted-points / weights views of rational shapes cannot survive the replacement of the net (IV1 restricted to these caches). the wrappers reach the operation on every normally returning path (WR1.always-delegates), optional coordinates are tested with `is None` (NONE1), and knot_insertion_kv leaves its input knot vector untouched (PU1). [SKEL, abstract object] interpreted on an object created with normalize_kv=False, the named methods never reach utilities.check_params and hand the request on to the evaluator / operation (RG2: spelling-independent form of RG1). [SKEL, abstract objects] the whole operation interpreted on abstract curves, surfaces and volumes with index-labelled control points, ordered knots and a row helper of known effect: per requested direction and for all directions at once the net changes along the requested directions only, set_ctrlpts receives the new sizes in (u, v, w) order and every cell of the new flat list is the input cell at the mapped coordinates, the row helper receives the degree, row count and count of its direction, knot vectors of other directions are untouched, and no parameter value is used as a truth value (OPS2: spelling-independent form of AX3 / LY1 / LY2 / LY3 / GA1).')
-NOT_DECIDED = 'that evaluated points are unchanged; the A5.1 blending arithmetic and alpha values; sortedness of the new knot vector (numerical/algorithmic, helpers.knot_insertion*).'
+NOT_DECIDED = ('that evaluated points are unchanged (needs C01); the blending arithmetic is decided as an exact identity for the three enumerated nets (degree 2 and 3, simple and double interior knots), not for every degree and knot vector, and not to floating-point rounding.')
 TECHNIQUE = 'axis-tag dataflow, stride rule in polynomial normal form, CFG dominance of guards, structural gather/scatter rules'
+DECIDES += (' [ABSTRACT INTERPRETATION, exact] KI3: helpers.knot_insertion on exact rational knots and symbolic control points equals r single Boehm insertions, for every span, existing multiplicity and admissible count of three nets.')
 
 
 def check(m, run):
